@@ -15,7 +15,8 @@ EXPLANATION = (
     "extractor are drawn from the state's own (restricted) successor list; (e) the extractor runs after the reward "
     "sweep. The optimal-set clause is decided as normal forms ARGSET_MAX / ARGSET_MIN over round(E[t], d) with the "
     "role table P1->best, P2->worst, else None. Numerical optimality of the listed actions is NOT decided."
-    ' Also: nothing computed by one solve is handed to the next (pre:C10.2), and no selection kernel funnels its transitions through a dictionary keyed by a part of the transition (0:keyed).')
+    ' Also: nothing computed by one solve is handed to the next (pre:C10.2), and no selection kernel funnels its transitions through a dictionary keyed by a part of the transition (0:keyed).'
+    ' Tied actions are listed in transition order, never ordered by their labels (pre:C13.3).')
 ASSUMPTIONS = ["expected rewards are >= 0", "action labels of one state are distinct (restriction is by label)"]
 TECHNIQUE = "CFG dominance chain + symbolic arg-set / filter normal forms (ast)"
 
